@@ -11,6 +11,7 @@ import sys
 import tarfile
 import types
 import zipfile
+import zlib
 from pathlib import Path
 from typing import Any, Dict, List, Optional, Tuple
 
@@ -623,7 +624,7 @@ def t2_direct(ctx: Ctx, enc440, S) -> None:
 
 PROBE_SETUP = "import c12probe\nc12probe.run(__file__)\nfrom setuptools import setup\nsetup(name={name!r}, version='1.0')\n"
 
-FILE_POOL = ["VERSION", "README.rst", "requirements.txt", "pkg/__init__.py", "pkg/version.py", "pkg/sub/data.txt",
+FILE_POOL = ["VERSION", ".version", "pkg/.hidden.txt", "README.rst", "requirements.txt", "pkg/__init__.py", "pkg/version.py", "pkg/sub/data.txt",
              "src/Mod.py", "docs/conf.py", "pkg/_v.py", "Pkg/upper.txt", "a/b/c/d.txt"]
 
 
@@ -1101,15 +1102,22 @@ def render_program(prog: Dict[str, Any]) -> Tuple[List[Tuple[str, str]], Dict[st
     if vi == "literal":
         kw.append("version=%r" % v)
     elif vi in ("read", "read_with", "io_open", "codecs_open"):
-        files["VERSION"] = v + "\n"
-        if vi == "read":
-            pre.append("version = open(%s).read().strip()" % P("VERSION"))
+        # every third project keeps its version in a hidden file at the top level (decided by the declaration, so
+        # that a program is a function of its description): a leading dot is part of the file's name in all packagings
+        vfile = ".version" if zlib.crc32((d["name"] + "\0" + v).encode("utf-8")) % 3 == 0 else "VERSION"
+        files[vfile] = v + "\n"
+        if vi == "read" and zlib.crc32((d["name"] + "\0" + v + "\0t").encode("utf-8")) % 2 == 0:
+            # tolerant reading: a default unless the file exists (a file the analyser cannot see is then a WRONG
+            # version, not a failure the egg_info fall-back would repair)
+            pre.append("version = '0.0.0.dev0'\nif os.path.exists(%s):\n    version = open(%s).read().strip()" % (P(vfile), P(vfile)))
+        elif vi == "read":
+            pre.append("version = open(%s).read().strip()" % P(vfile))
         elif vi == "read_with":
-            pre.append("with open(%s, encoding='utf-8') as fh:\n    version = fh.read().strip()" % P("VERSION"))
+            pre.append("with open(%s, encoding='utf-8') as fh:\n    version = fh.read().strip()" % P(vfile))
         elif vi == "io_open":
-            pre.append("version = io.open(%s, encoding='utf-8').read().strip()" % P("VERSION"))
+            pre.append("version = io.open(%s, encoding='utf-8').read().strip()" % P(vfile))
         else:
-            pre.append("version = codecs.open(%s, 'r', 'utf-8').read().strip()" % P("VERSION"))
+            pre.append("version = codecs.open(%s, 'r', 'utf-8').read().strip()" % P(vfile))
         kw.append("version=version")
     elif vi == "regex":
         files[pkg + "/__init__.py"] = "# package\n__version__ = '%s'\n" % v
